@@ -12,36 +12,46 @@ section
 variable {σ V : Type}
 
 /-- **Frame condition relative to the protected region** — the object graphs below the stored start
-    containers `S`.  Of a heap that is well formed, whose region exists and is not referenced from
-    outside, an operator / logbook call that is *not handed* anything inside the region
+    containers `S` — and to an invariant `I` tying the operators' internal state to the heap (for
+    instance: "every reference the operators have kept lies outside the region", see
+    `Footprint.respects`; `fun _ _ => True` for operators that keep nothing).
+    Of a heap that is well formed, whose region exists and is not referenced from outside, in an
+    internal state satisfying `I`, an operator / logbook call that is *not handed* anything inside the
+    region
     * leaves every cell of the region as it is,
     * stores no reference into the region anywhere outside it (it has none to store),
     * returns only valid references outside the region,
-    * keeps the heap well formed and does not shrink it.
+    * keeps the heap well formed and does not shrink it,
+    * re-establishes `I`.
+    `I` must also survive the programme's own allocations (`alloc`: fresh dicts, deep copies).
     Everything else is unconstrained: in-place mutation of any object reachable from what is handed
     now or was handed earlier, allocation, aliasing, sharing among the returned graphs, dependence on
     an internal state `σ`. -/
-structure Respects (S : List Ref) (ops : Ops σ V) : Prop where
-  op : ∀ (k : OpK) (s : σ) (h : Heap (Cell V)) (as : List Ref) (t tm : Nat),
+structure Respects (I : σ → Heap (Cell V) → Prop) (S : List Ref) (ops : Ops σ V) : Prop where
+  op : ∀ (k : OpK) (s : σ) (h : Heap (Cell V)) (as : List Ref) (t tm : Nat), I s h →
     WFH h → (∀ x, InReg h S x → x < h.length) → Iso h S → (∀ a ∈ as, a < h.length ∧ ¬ InReg h S a) →
       h.length ≤ (ops.op k s h as t tm).2.1.length ∧ WFH (ops.op k s h as t tm).2.1 ∧
       (∀ x, InReg h S x → (ops.op k s h as t tm).2.1[x]? = h[x]?) ∧
       (∀ (x : Nat) (c : Cell V), (ops.op k s h as t tm).2.1[x]? = some c → ¬ InReg h S x →
         ∀ r ∈ c.refs, ¬ InReg h S r) ∧
       (∀ a ∈ (ops.op k s h as t tm).2.2, a < (ops.op k s h as t tm).2.1.length ∧ ¬ InReg h S a) ∧
-      (ops.op k s h as t tm).2.2.length = arity k
-  log : ∀ (k : LogK) (s : σ) (h : Heap (Cell V)) (as : List Ref) (t tm : Nat) (rp : Int),
+      (ops.op k s h as t tm).2.2.length = arity k ∧
+      I (ops.op k s h as t tm).1 (ops.op k s h as t tm).2.1
+  log : ∀ (k : LogK) (s : σ) (h : Heap (Cell V)) (as : List Ref) (t tm : Nat) (rp : Int), I s h →
     WFH h → (∀ x, InReg h S x → x < h.length) → Iso h S → (∀ a ∈ as, a < h.length ∧ ¬ InReg h S a) →
       h.length ≤ (ops.log k s h as t tm rp).2.length ∧ WFH (ops.log k s h as t tm rp).2 ∧
       (∀ x, InReg h S x → (ops.log k s h as t tm rp).2[x]? = h[x]?) ∧
       (∀ (x : Nat) (c : Cell V), (ops.log k s h as t tm rp).2[x]? = some c → ¬ InReg h S x →
-        ∀ r ∈ c.refs, ¬ InReg h S r)
+        ∀ r ∈ c.refs, ¬ InReg h S r) ∧
+      I (ops.log k s h as t tm rp).1 (ops.log k s h as t tm rp).2
+  alloc : ∀ (s : σ) (h ext : Heap (Cell V)), I s h → WFH h → (∀ x, InReg h S x → x < h.length) → I s (h ++ ext)
 
 /-- the invariant: not crashed; the heap is well formed; the start references are `S`; the object
     graphs below them lie in the part of the heap that existed at initialisation, are not referenced
     from outside, and look (to depth `d`) like `V0`; every program variable that is set refers to a
-    valid cell outside that region -/
-structure Good (d : Nat) (S : List Ref) (V0 : List (Option (View V))) (st : State σ V) : Prop where
+    valid cell outside that region; the operators' internal state satisfies `I` -/
+structure Good (I : σ → Heap (Cell V) → Prop) (d : Nat) (S : List Ref) (V0 : List (Option (View V)))
+    (st : State σ V) : Prop where
   nbad : st.bad = false
   start : st.start = S.map some
   wf : WFH st.heap
@@ -50,13 +60,14 @@ structure Good (d : Nat) (S : List Ref) (V0 : List (Option (View V))) (st : Stat
   iso : Iso st.heap S
   svals : vals d st.heap S = V0
   regs : ∀ r a, st.regs r = some a → a < st.heap.length ∧ ¬ InReg st.heap S a
+  inv : I st.ost st.heap
 
-variable {S : List Ref} {V0 : List (Option (View V))} {ops : Ops σ V} {cfg : Cfg V} {d : Nat}
+variable {I : σ → Heap (Cell V) → Prop} {S : List Ref} {V0 : List (Option (View V))} {ops : Ops σ V} {cfg : Cfg V} {d : Nat}
 
-theorem Good.svalid {st : State σ V} (g : Good d S V0 st) : ∀ s ∈ S, s < st.heap.length :=
+theorem Good.svalid {st : State σ V} (g : Good I d S V0 st) : ∀ s ∈ S, s < st.heap.length :=
   fun s hs => lt_of_lt_of_le (g.region s (InReg.of_mem hs)) g.n0le
 
-theorem Good.regionValid {st : State σ V} (g : Good d S V0 st) : ∀ x, InReg st.heap S x → x < st.heap.length :=
+theorem Good.regionValid {st : State σ V} (g : Good I d S V0 st) : ∀ x, InReg st.heap S x → x < st.heap.length :=
   fun x hx => lt_of_lt_of_le (g.region x hx) g.n0le
 
 theorem resolve_mem (regs : Reg → Option Ref) :
@@ -77,13 +88,13 @@ theorem resolve_mem (regs : Reg → Option Ref) :
         · exact ⟨r, h1⟩
         · exact resolve_mem regs rs as0 h2 a ha
 
-theorem Good.args_ok {st : State σ V} (g : Good d S V0 st) {args : List Reg} {as : List Ref}
+theorem Good.args_ok {st : State σ V} (g : Good I d S V0 st) {args : List Reg} {as : List Ref}
     (h : resolve st.regs args = some as) : ∀ a ∈ as, a < st.heap.length ∧ ¬ InReg st.heap S a := by
   intro a ha
   obtain ⟨r, hr⟩ := resolve_mem _ _ _ h a ha
   exact g.regs r a hr
 
-theorem Good.bound_ok {st : State σ V} (g : Good d S V0 st) {need : List Kw} {args : List (Kw × Reg)}
+theorem Good.bound_ok {st : State σ V} (g : Good I d S V0 st) {need : List Kw} {args : List (Kw × Reg)}
     {as : List Ref} (h : (bindArgs need args).bind (resolve st.regs) = some as) :
     ∀ a ∈ as, a < st.heap.length ∧ ¬ InReg st.heap S a := by
   cases hb : bindArgs need args with
@@ -92,7 +103,7 @@ theorem Good.bound_ok {st : State σ V} (g : Good d S V0 st) {need : List Kw} {a
     simp only [hb, Option.bind_some] at h
     exact g.args_ok h
 
-theorem Good.startVals {st : State σ V} (g : Good d S V0 st) : startVals d st.heap st.start = V0 := by
+theorem Good.startVals {st : State σ V} (g : Good I d S V0 st) : startVals d st.heap st.start = V0 := by
   rw [g.start, startVals_map_some, g.svals]
 
 /-! ### statements without an event -/
@@ -122,32 +133,33 @@ theorem execS_newDict {st : State σ V} (hb : st.bad = false) (dst : Reg) :
       { st with heap := st.heap ++ [⟨cfg.emptyV, []⟩], regs := setReg st.regs dst (some st.heap.length) } := by
   simp [execS, hb]
 
-theorem Good.tick {st : State σ V} (g : Good d S V0 st) : Good d S V0 { st with t := st.t + 1 } :=
-  ⟨g.nbad, g.start, g.wf, g.n0le, g.region, g.iso, g.svals, g.regs⟩
+theorem Good.tick {st : State σ V} (g : Good I d S V0 st) : Good I d S V0 { st with t := st.t + 1 } :=
+  ⟨g.nbad, g.start, g.wf, g.n0le, g.region, g.iso, g.svals, g.regs, g.inv⟩
 
-theorem Good.setT0 {st : State σ V} (g : Good d S V0 st) : Good d S V0 { st with t := 0 } :=
-  ⟨g.nbad, g.start, g.wf, g.n0le, g.region, g.iso, g.svals, g.regs⟩
+theorem Good.setT0 {st : State σ V} (g : Good I d S V0 st) : Good I d S V0 { st with t := 0 } :=
+  ⟨g.nbad, g.start, g.wf, g.n0le, g.region, g.iso, g.svals, g.regs, g.inv⟩
 
-theorem Good.move {st : State σ V} (g : Good d S V0 st) (dst src : Reg) (a : Ref) (h : st.regs src = some a) :
-    Good d S V0 { st with regs := setReg st.regs dst (some a) } :=
+theorem Good.move {st : State σ V} (g : Good I d S V0 st) (dst src : Reg) (a : Ref) (h : st.regs src = some a) :
+    Good I d S V0 { st with regs := setReg st.regs dst (some a) } :=
   ⟨g.nbad, g.start, g.wf, g.n0le, g.region, g.iso, g.svals,
-    setReg_pred (fun a => a < st.heap.length ∧ ¬ InReg st.heap S a) st.regs dst a g.regs (g.regs src a h)⟩
+    setReg_pred (fun a => a < st.heap.length ∧ ¬ InReg st.heap S a) st.regs dst a g.regs (g.regs src a h), g.inv⟩
 
-theorem Good.incRep {st : State σ V} (g : Good d S V0 st) : Good d S V0 { st with rep := st.rep + 1 } :=
-  ⟨g.nbad, g.start, g.wf, g.n0le, g.region, g.iso, g.svals, g.regs⟩
+theorem Good.incRep {st : State σ V} (g : Good I d S V0 st) : Good I d S V0 { st with rep := st.rep + 1 } :=
+  ⟨g.nbad, g.start, g.wf, g.n0le, g.region, g.iso, g.svals, g.regs, g.inv⟩
 
 /-- appending cells whose references are valid and do not point into the region, and storing one
     of the new addresses in a program variable -/
-theorem Good.extend {st : State σ V} (g : Good d S V0 st) (ext : Heap (Cell V)) (dst : Reg) (x : Nat)
+theorem Good.extend {st : State σ V} (g : Good I d S V0 st) (hR : Respects I S ops) (ext : Heap (Cell V))
+    (dst : Reg) (x : Nat)
     (hrefs : ∀ c ∈ ext, ∀ r ∈ c.refs, r < st.heap.length + ext.length ∧ ¬ InReg st.heap S r)
     (hx : st.heap.length ≤ x ∧ x < st.heap.length + ext.length) :
-    Good d S V0 { st with heap := st.heap ++ ext, regs := setReg st.regs dst (some x) } := by
+    Good I d S V0 { st with heap := st.heap ++ ext, regs := setReg st.regs dst (some x) } := by
   have hsame : ∀ y, InReg st.heap S y → (st.heap ++ ext)[y]? = st.heap[y]? :=
     fun y hy => List.getElem?_append_left (g.regionValid y hy)
   have hreg : ∀ y, InReg (st.heap ++ ext) S y ↔ InReg st.heap S y := InReg.congr hsame
   have hnew : ∀ y, st.heap.length ≤ y → ¬ InReg st.heap S y :=
     fun y hy hin => absurd (g.regionValid y hin) (not_lt.mpr hy)
-  refine ⟨g.nbad, g.start, ?_, ?_, ?_, ?_, ?_, ?_⟩
+  refine ⟨g.nbad, g.start, ?_, ?_, ?_, ?_, ?_, ?_, hR.alloc _ _ ext g.inv g.wf g.regionValid⟩
   · exact g.wf.append ext (fun c hc r hr => (hrefs c hc r hr).1)
   · show st.n0 ≤ (st.heap ++ ext).length
     rw [List.length_append]; exact Nat.le_add_right_of_le g.n0le
@@ -173,17 +185,18 @@ theorem Good.extend {st : State σ V} (g : Good d S V0 st) (ext : Heap (Cell V))
       rw [List.length_append]; exact hx.2
 
 /-- allocation of one cell without references that is stored in a program variable -/
-theorem Good.alloc {st : State σ V} (g : Good d S V0 st) (v : V) (dst : Reg) :
-    Good d S V0 { st with heap := st.heap ++ [⟨v, []⟩], regs := setReg st.regs dst (some st.heap.length) } :=
-  g.extend [⟨v, []⟩] dst st.heap.length (by simp) (by simp)
+theorem Good.alloc {st : State σ V} (g : Good I d S V0 st) (hR : Respects I S ops) (v : V) (dst : Reg) :
+    Good I d S V0 { st with heap := st.heap ++ [⟨v, []⟩], regs := setReg st.regs dst (some st.heap.length) } :=
+  g.extend hR [⟨v, []⟩] dst st.heap.length (by simp) (by simp)
 
 /-- `X = copy.deepcopy(self.start_i)`: the new working container is outside the region and looks
     like the start container -/
-theorem execS_copyStart {st : State σ V} (g : Good d S V0 st) (dst : Reg) (i : Nat) (hi : i < S.length) :
+theorem execS_copyStart {st : State σ V} (g : Good I d S V0 st) (hR : Respects I S ops) (dst : Reg) (i : Nat)
+    (hi : i < S.length) :
     execS ops cfg (.copyStart dst i) st =
         { st with heap := deepCopyAll st.n0 st.heap, regs := setReg st.regs dst (some (S[i] + st.heap.length)) } ∧
-      Good d S V0 { st with heap := deepCopyAll st.n0 st.heap,
-                            regs := setReg st.regs dst (some (S[i] + st.heap.length)) } ∧
+      Good I d S V0 { st with heap := deepCopyAll st.n0 st.heap,
+                              regs := setReg st.regs dst (some (S[i] + st.heap.length)) } ∧
       V0[i]? = some (viewO d (deepCopyAll st.n0 st.heap) (S[i] + st.heap.length)) := by
   have hs : st.start[i]? = some (some S[i]) := by
     rw [g.start]; simp [hi]
@@ -194,7 +207,7 @@ theorem execS_copyStart {st : State σ V} (g : Good d S V0 st) (dst : Reg) (i : 
   · simp [execS, g.nbad, hs, hn0, g.n0le]
   · have hlen : ((st.heap.take st.n0).map (shiftCell st.n0 st.heap.length)).length = st.n0 := by
       simp [Nat.min_eq_left g.n0le]
-    apply g.extend ((st.heap.take st.n0).map (shiftCell st.n0 st.heap.length)) dst
+    apply g.extend hR ((st.heap.take st.n0).map (shiftCell st.n0 st.heap.length)) dst
     · intro c hc r hr
       have hwf := deepCopyAll_wf st.n0 g.wf g.n0le
       obtain ⟨j, hj, hcj⟩ := List.mem_iff_getElem.mp hc
@@ -265,16 +278,16 @@ theorem execS_log_off {st : State σ V} (k : LogK) (args : List (Kw × Reg)) (hg
   · simp [hg]
 
 /-- the invariant after a heap change that leaves the region alone and creates no reference into it -/
-theorem Good.heapChange {st : State σ V} (g : Good d S V0 st) (h' : Heap (Cell V))
+theorem Good.heapChange {st : State σ V} (g : Good I d S V0 st) (h' : Heap (Cell V))
     (h1 : st.heap.length ≤ h'.length) (hwf : WFH h')
     (h2 : ∀ x, InReg st.heap S x → h'[x]? = st.heap[x]?)
     (h3 : ∀ (x : Nat) (c : Cell V), h'[x]? = some c → ¬ InReg st.heap S x → ∀ r ∈ c.refs, ¬ InReg st.heap S r)
     (regs' : Reg → Option Ref)
     (hregs : ∀ r a, regs' r = some a → a < h'.length ∧ ¬ InReg st.heap S a)
-    (ost' : σ) (tr' : List (Event (View V))) :
-    Good d S V0 { st with ost := ost', heap := h', regs := regs', trace := tr' } := by
+    (ost' : σ) (tr' : List (Event (View V))) (hI : I ost' h') :
+    Good I d S V0 { st with ost := ost', heap := h', regs := regs', trace := tr' } := by
   have hreg : ∀ y, InReg h' S y ↔ InReg st.heap S y := InReg.congr h2
-  refine ⟨g.nbad, g.start, hwf, le_trans g.n0le h1, ?_, ?_, ?_, ?_⟩
+  refine ⟨g.nbad, g.start, hwf, le_trans g.n0le h1, ?_, ?_, ?_, ?_, hI⟩
   · intro y hy; exact g.region y ((hreg y).mp hy)
   · intro y c hc hny r hr
     rw [hreg] at hny ⊢
@@ -286,29 +299,29 @@ theorem Good.heapChange {st : State σ V} (g : Good d S V0 st) (h' : Heap (Cell 
     have := hregs r a h
     exact ⟨this.1, fun hin => this.2 ((hreg a).mp hin)⟩
 
-theorem Good.call {st : State σ V} (g : Good d S V0 st) (hR : Respects S ops) (k : OpK)
+theorem Good.call {st : State σ V} (g : Good I d S V0 st) (hR : Respects I S ops) (k : OpK)
     (rets : List Reg) (as : List Ref) (has : ∀ a ∈ as, a < st.heap.length ∧ ¬ InReg st.heap S a) :
-    Good d S V0 { st with ost := (ops.op k st.ost st.heap as st.t cfg.tmax).1,
-                          heap := (ops.op k st.ost st.heap as st.t cfg.tmax).2.1,
-                          regs := assign st.regs rets (ops.op k st.ost st.heap as st.t cfg.tmax).2.2,
-                          trace := st.trace ++ [callEvent ops cfg k as st] } := by
-  obtain ⟨h1, hwf, h2, h3, h4, _⟩ := hR.op k st.ost st.heap as st.t cfg.tmax g.wf g.regionValid g.iso has
-  apply g.heapChange _ h1 hwf h2 h3
+    Good I d S V0 { st with ost := (ops.op k st.ost st.heap as st.t cfg.tmax).1,
+                            heap := (ops.op k st.ost st.heap as st.t cfg.tmax).2.1,
+                            regs := assign st.regs rets (ops.op k st.ost st.heap as st.t cfg.tmax).2.2,
+                            trace := st.trace ++ [callEvent ops cfg k as st] } := by
+  obtain ⟨h1, hwf, h2, h3, h4, _, hI⟩ := hR.op k st.ost st.heap as st.t cfg.tmax g.inv g.wf g.regionValid g.iso has
+  refine g.heapChange _ h1 hwf h2 h3 _ ?_ _ _ hI
   apply assign_pred (fun a => a < (ops.op k st.ost st.heap as st.t cfg.tmax).2.1.length ∧ ¬ InReg st.heap S a)
   · intro r a h
     have := g.regs r a h
     exact ⟨lt_of_lt_of_le this.1 h1, this.2⟩
   · exact h4
 
-theorem Good.log {st : State σ V} (g : Good d S V0 st) (hR : Respects S ops) (k : LogK)
+theorem Good.log {st : State σ V} (g : Good I d S V0 st) (hR : Respects I S ops) (k : LogK)
     (as : List Ref) (has : ∀ a ∈ as, a < st.heap.length ∧ ¬ InReg st.heap S a) :
-    Good d S V0 { st with ost := (ops.log k st.ost st.heap as st.t cfg.tmax st.rep).1,
-                          heap := (ops.log k st.ost st.heap as st.t cfg.tmax st.rep).2,
-                          trace := st.trace ++ [logEvent cfg k as st] } := by
-  obtain ⟨h1, hwf, h2, h3⟩ := hR.log k st.ost st.heap as st.t cfg.tmax st.rep g.wf g.regionValid g.iso has
+    Good I d S V0 { st with ost := (ops.log k st.ost st.heap as st.t cfg.tmax st.rep).1,
+                            heap := (ops.log k st.ost st.heap as st.t cfg.tmax st.rep).2,
+                            trace := st.trace ++ [logEvent cfg k as st] } := by
+  obtain ⟨h1, hwf, h2, h3, hI⟩ := hR.log k st.ost st.heap as st.t cfg.tmax st.rep g.inv g.wf g.regionValid g.iso has
   have := g.heapChange (ops.log k st.ost st.heap as st.t cfg.tmax st.rep).2 h1 hwf h2 h3 st.regs
     (fun r a h => ⟨lt_of_lt_of_le (g.regs r a h).1 h1, (g.regs r a h).2⟩)
-    (ops.log k st.ost st.heap as st.t cfg.tmax st.rep).1 (st.trace ++ [logEvent cfg k as st])
+    (ops.log k st.ost st.heap as st.t cfg.tmax st.rep).1 (st.trace ++ [logEvent cfg k as st]) hI
   exact this
 
 end
